@@ -28,7 +28,7 @@ LEVEL_NOTE = ('bounded depth; one process, no concurrent writers or I/O faults; 
 RULE = ('BFS over histories: initial states x operation menu, depth-bounded; a state is expanded once per shard (canonical hash of all file bytes + object fields). '
         'evaluations = transitions executed (each by replaying its whole history on fresh real objects); distinct_nontrivial = distinct canonical successor states.')
 ASSUMPTIONS = ['a second pre-existing file with the same table/column names but different column types can be opened at any point (operation open)', 'wall clock replaced by a fixed clock (timestamps in comments are not part of the property)',
-               'appended pairs use fresh keys; appended rows come from a per-table menu indexed by the current row count']
+               'appended pairs use new keywords (fresh upper-case ones and lower-case siblings of existing upper-case ones); a zero-length file is among the pre-existing files; appended rows come from a per-table menu indexed by the current row count']
 MIN_OUTCOMES = 4
 
 DEPTH = {'quick': 3, 'thorough': 5}
@@ -50,10 +50,11 @@ ROWMENU['TAB1_O'] = [[9223372036854775807, [0.5, -1.5], ['ab', 'c d'], 'w'], [-5
                      [7, [3.0, 4.0], ['s', 't'], '#'], [8, [5.0, 6.0], ['u', 'v'], 'zz']]
 ROWMENU['TAB2_O'] = [[3, 0.25, 'ab'], [-4, 1.0 / 3.0, 'c d'], [5, 1e300, ''], [6, -0.0, 'a#b'], [7, 2.5, 'x']]
 OTHER = 'other.par'
+EMPTY = 'empty.par'     # a pre-existing file of length zero: it exists, so a write onto it must be refused like any other
 INITS = [
     {'structs': [TAB1], 'nrows': [1], 'pairs': [], 'other': [TAB1_O]},
     {'structs': [TAB2], 'nrows': [1], 'pairs': [], 'other': [TAB2_O]},
-    {'structs': [TAB1, TAB2], 'nrows': [1, 0], 'pairs': [['mjd', '54579'], ['alpha', 'beta gamma']], 'other': [TAB1_O, TAB2_O]},
+    {'structs': [TAB1, TAB2], 'nrows': [1, 0], 'pairs': [['MJD', '54579'], ['alpha', 'beta gamma']], 'other': [TAB1_O, TAB2_O]},
     # the same content as the first, but the pre-existing file has CRLF line ends (byte-for-byte preservation of earlier lines)
     {'structs': [TAB1], 'nrows': [1], 'pairs': [['mjd', '54579']], 'other': [TAB1_O], 'eol': '\r\n'},
 ]
@@ -63,7 +64,7 @@ CANON_LAYOUT = {'eol': '\n', 'cmt': 'header', 'trail': False, 'blank': 'blocks',
 
 
 def ops_menu(nt):
-    ops = [['write', 'A.par'], ['write', 'B.par'], ['write', None], ['write', F0], ['append_pairs'], ['append_empty'],
+    ops = [['write', 'A.par'], ['write', 'B.par'], ['write', None], ['write', F0], ['write', EMPTY], ['append_pairs'], ['append_empty'],
            ['rebind_missing'], ['re_read'], ['open', OTHER], ['open', F0]]
     for t in range(nt):
         for form in ('lists', 'recarray'):
@@ -93,6 +94,7 @@ class Model:
         # a second, pre-existing file: same table and column names, different column types
         self.files[OTHER] = {'structs': init['other'], 'pairs': [['note', 'other file']],
                              'rows': [[_menu(s)[0]] for s in init['other']]}
+        self.files[EMPTY] = None       # exists, no logical content
 
     def snapshot(self):
         return {'structs': self.structs, 'pairs': copy.deepcopy(self.pairs), 'rows': copy.deepcopy(self.rows)}
@@ -108,8 +110,12 @@ class Model:
         return [menu[(k + j) % len(menu)] for j in range(n)]
 
     def next_pair(self):
+        # a NEW keyword each time (keywords are case-sensitive): the lower-case sibling of an upper-case keyword that has
+        # none yet, else a fresh upper-case keyword - so new keywords collide with existing ones under case folding
         n = len(self.pairs)
-        return ['key%d' % n, ['value %d' % n, 54580 + n, n + 0.5][n % 3]]      # str, int and float values
+        have = [k for k, v in self.pairs]
+        sib = [k.lower() for k in have if k.isupper() and k.lower() not in have]
+        return [sib[0] if sib else 'KEY%d' % n, ['value %d' % n, 54580 + n, n + 0.5][n % 3]]      # str, int and float values
 
     def apply(self, op):
         """Return expected result class: 'ok', 'refused:<Exc>', 'warned'."""
@@ -169,6 +175,7 @@ class World:
             f.write(text.encode('ascii'))
         with open(os.path.join(d, OTHER), 'w') as f:
             f.write(c02.render(self.model.doc(self.model.files[OTHER]), CANON_LAYOUT))
+        open(os.path.join(d, EMPTY), 'w').close()
         self.y = yanny(os.path.join(d, F0), raw=raw)
         self.raw = raw
 
@@ -300,6 +307,8 @@ def step_and_check(world, op):
         bad.append(('%s:object-vs-model:%s' % (kind, s), msg))
     # fresh read of every file == its logical content in the model
     for n, snap in m.files.items():
+        if snap is None:
+            continue        # the zero-length file: its bytes are compared above, it has no content to read
         try:
             fresh = yanny(os.path.join(world.d, n), raw=world.raw)
         except Exception as e:
